@@ -1,5 +1,7 @@
 import PqModel.RleLemmas
 import PqModel.BitPackedLemmas
+import PqModel.RleDecodeLemmas
+import PqModel.RlePackLemmas
 
 /-! # C04 (part rle) — the RLE / bit-packed hybrid is lossless and matches the format
 
@@ -219,8 +221,12 @@ theorem levels_silent_truncation_witness :
     encodeLevels 1 [2, 3, 2, 3, 2, 3, 2, 3] >>= specDecode 1 8 = .ok [0, 1, 0, 1, 0, 1, 0, 1] :=
   levels_out_of_range_is_masked 1 [2, 3, 2, 3, 2, 3, 2, 3] (by decide) (by decide)
 
-/-- The two run segmentations of `encodeInt32` (portable / AVX2 kernel) differ on the smallest
-possible input: 16 values, the second word of shape `a,a,a,a,b,b,b,b` (F15). -/
+/-- The group test of the AVX2 kernel as it was before the repair "AVX2 run detection of the RLE
+encoder broadcasts the first value across both lanes" (`constGroupAVX2`, lane-local broadcast)
+segments differently from the portable test on the smallest possible input: 16 values, the second
+word of shape `a,a,a,a,b,b,b,b`. The kernel is repaired: asm output now equals the portable mirror
+(histogram `rle.int32-asm-bytes`); the old test is kept as a second instance of the `stop`
+parameter of the theorems and as a regression witness. -/
 theorem int32_segmentations_differ :
     encodeInt32 1 [0, 1, 0, 1, 0, 1, 0, 1, 0, 0, 0, 0, 1, 1, 1, 1] ≠
     encodeInt32AVX2 1 [0, 1, 0, 1, 0, 1, 0, 1, 0, 0, 0, 0, 1, 1, 1, 1] := by
@@ -254,6 +260,219 @@ theorem decodeBoolean_bytes_of_valid {xs bs : List Nat} (h : ValidRleGo xs bs) :
 example : ValidRleGo [1, 1, 1, 1, 1, 1, 1, 1] [0x10, 0x01] :=
   ⟨[.rle 8 [1]], by simp [Run.WF], by simp [Run.GoOK], by simp [runsValues, Run.values, leNat],
     by simp [serialize, Run.bytes, uvarint_small]⟩
+
+/-! ## The Go decoders of levels and int32 / dictionary indexes (mirrors of `decodeBytes`, `decodeInt32`) -/
+
+/-- Mirror of `decodeBytes` (levels, width ≤ 8): on every conformant stream whose runs it frames like
+the format (`ValidRleGoW`: no empty RLE run, canonical RLE values, run lengths ≤ MaxInt32) it
+returns exactly the encoded values, bit-packed padding of the last run included. -/
+theorem goDecodeLevels_of_valid {w : Nat} {xs bs : List Nat} (hw : w ≤ 8) (h : ValidRleGoW w xs bs) :
+    goDecodeLevels w bs = .ok xs := by
+  obtain ⟨rs, hwf, hgo, rfl, rfl⟩ := h
+  have a : ¬ w > 8 := by omega
+  simp only [goDecodeLevels, a, if_false]
+  rw [goLevelsLoop_serialize w hw rs _ [] hwf hgo (by have := serialize_length_ge rs; omega)]
+  simp
+
+/-- Mirror of `decodeInt32` (width ≤ 32), with the portable `bitpack.Unpack` word loop inside. -/
+theorem goDecodeInt32_of_valid {w : Nat} {xs bs : List Nat} (hw : w ≤ 32) (h : ValidRleGoW w xs bs) :
+    goDecodeInt32 w bs = .ok xs := by
+  obtain ⟨rs, hwf, hgo, rfl, rfl⟩ := h
+  have a : ¬ w > 32 := by omega
+  simp only [goDecodeInt32, a, if_false]
+  rw [goInt32Loop_serialize w hw rs _ [] hwf hgo (by have := serialize_length_ge rs; omega)]
+  simp
+
+example : ValidRleGoW 3 [5, 5, 5] [6, 5] :=
+  ⟨[.rle 3 [5]], by simp [Run.WF], by simp [Run.GoOKW, leNat], by simp [runsValues, Run.values, leNat],
+    by simp [serialize, Run.bytes, uvarint_small]⟩
+
+/-- the mirror encoders only emit streams in the decoders' domain -/
+theorem encodeLevels_validGo (w : Nat) (xs : List Nat) (h1 : 1 ≤ w) (h8 : w ≤ 8)
+    (hx : ∀ x ∈ xs, x < 2 ^ w) (hl : xs.length ≤ 2 ^ 31 - 1) :
+    ∃ bs, encodeLevels w xs = .ok bs ∧ ValidRleGoW w xs bs := by
+  have hs := groups_tail_spec w (fun v => [v]) scanLevels (encOK_levels w h1 h8) scanLevels_le xs
+  have hg := groups_tail_goOK w (fun v => [v]) scanLevels (fun v hv => by simpa [leNat] using hv)
+    scanLevels_le xs hx hl
+  refine ⟨_, ?_, ⟨_, hs.1, hg, ?_, rfl⟩⟩
+  · have a : ¬ w > 8 := by omega
+    have b : ¬ w = 0 := by omega
+    simp only [encodeLevels, a, b, if_false, levelsLoop]
+  · rw [hs.2, map_mod_of_lt w xs hx]
+
+theorem encodeInt32_validGo (stop : List Nat → Bool) (w : Nat) (xs : List Nat) (h1 : 1 ≤ w) (h32 : w ≤ 32)
+    (hx : ∀ x ∈ xs, x < 2 ^ w) (hl : xs.length ≤ 2 ^ 31 - 1) :
+    ∃ bs, encodeInt32With stop w xs = .ok bs ∧ ValidRleGoW w xs bs := by
+  have hs := groups_tail_spec w (leBytes ((w + 7) / 8))
+    (fun _ gs => (gs.takeWhile (fun g => !stop g)).length) (encOK_int32 w)
+    (fun _ gs => length_takeWhile_le _ gs) xs
+  have hg := groups_tail_goOK w (leBytes ((w + 7) / 8))
+    (fun _ gs => (gs.takeWhile (fun g => !stop g)).length)
+    (fun v hv => by rw [leNat_leBytes]; exact Nat.lt_of_le_of_lt (Nat.mod_le _ _) hv)
+    (fun _ gs => length_takeWhile_le _ gs) xs hx hl
+  refine ⟨_, ?_, ⟨_, hs.1, hg, ?_, rfl⟩⟩
+  · have a : ¬ w > 32 := by omega
+    have b : ¬ w = 0 := by omega
+    simp only [encodeInt32With, a, b, if_false, int32Loop]
+  · rw [hs.2, map_mod_of_lt w xs hx]
+
+example : (∀ x ∈ [1, 0, 1, 1, 1, 1, 1, 1, 1, 1], x < 2 ^ 1) ∧ [1, 0, 1, 1, 1, 1, 1, 1, 1, 1].length ≤ 2 ^ 31 - 1 := by decide
+
+/-- width 0: `uvarint (2 * len)` decodes to `len` zeros (one RLE run, or nothing when empty) -/
+theorem zeroWidth_go (xs : List Nat) (hall : xs.all (· == 0) = true) (hl : xs.length ≤ 2 ^ 31 - 1) :
+    goDecodeLevels 0 (uvarint (2 * xs.length)) = .ok xs ∧ goDecodeInt32 0 (uvarint (2 * xs.length)) = .ok xs := by
+  by_cases he : xs = []
+  · subst he
+    simp [goDecodeLevels, goDecodeInt32, goDecodeLevelsLoop, goDecodeInt32Loop, uvarint_small, goUvarint]
+  · have hpos : 1 ≤ xs.length := by
+      cases xs with
+      | nil => exact absurd rfl he
+      | cons _ _ => simp
+    have hv : ValidRleGoW 0 xs (uvarint (2 * xs.length)) := by
+      refine ⟨[.rle xs.length []], ?_, ?_, ?_, ?_⟩
+      · intro r hr; simp at hr; subst hr; simp [Run.WF]
+      · intro r hr; simp at hr; subst hr; exact ⟨hpos, hl, by simp [leNat]⟩
+      · simp only [runsValues, List.map_cons, List.map_nil, List.flatten_cons, List.flatten_nil,
+          List.append_nil, Run.values, leNat]
+        exact (all_zero_eq_replicate xs hall).symm
+      · simp [serialize, Run.bytes]
+    exact ⟨goDecodeLevels_of_valid (by omega) hv, goDecodeInt32_of_valid (by omega) hv⟩
+
+/-- In-library round trip on the model of both sides: `decodeBytes (encodeBytes xs) = xs` for every
+width ≤ 8 and every in-range list shorter than 2^31. -/
+theorem go_roundtrip_levels (w : Nat) (xs : List Nat) (hw : w ≤ 8) (hx : ∀ x ∈ xs, x < 2 ^ w)
+    (hl : xs.length ≤ 2 ^ 31 - 1) : encodeLevels w xs >>= goDecodeLevels w = .ok xs := by
+  by_cases h0 : w = 0
+  · subst h0
+    have hall : xs.all (· == 0) = true := by
+      rw [List.all_eq_true]; intro x hx'; have := hx x hx'; simp at this; simp [this]
+    have he : encodeLevels 0 xs = .ok (uvarint (2 * xs.length)) := by simp [encodeLevels, hall]
+    rw [he]; exact (zeroWidth_go xs hall hl).1
+  · obtain ⟨bs, he, hv⟩ := encodeLevels_validGo w xs (by omega) hw hx hl
+    rw [he]; exact goDecodeLevels_of_valid hw hv
+
+/-- `decodeInt32 (encodeInt32 xs) = xs`, width ≤ 32, portable and AVX2 segmentation -/
+theorem go_roundtrip_int32 (stop : List Nat → Bool) (w : Nat) (xs : List Nat) (hw : w ≤ 32)
+    (hx : ∀ x ∈ xs, x < 2 ^ w) (hl : xs.length ≤ 2 ^ 31 - 1) :
+    encodeInt32With stop w xs >>= goDecodeInt32 w = .ok xs := by
+  by_cases h0 : w = 0
+  · subst h0
+    have hall : xs.all (· == 0) = true := by
+      rw [List.all_eq_true]; intro x hx'; have := hx x hx'; simp at this; simp [this]
+    have he : encodeInt32With stop 0 xs = .ok (uvarint (2 * xs.length)) := by simp [encodeInt32With, hall]
+    rw [he]; exact (zeroWidth_go xs hall hl).2
+  · obtain ⟨bs, he, hv⟩ := encodeInt32_validGo stop w xs (by omega) hw hx hl
+    rw [he]; exact goDecodeInt32_of_valid hw hv
+
+/-- dictionary index pages: `DictionaryEncoding.DecodeInt32 (EncodeInt32 xs) = xs` -/
+theorem go_roundtrip_dict (xs : List Nat) (hx : ∀ x ∈ xs, x < 2 ^ 32) (hl : xs.length ≤ 2 ^ 31 - 1) :
+    encodeDict xs >>= goDecodeDict = .ok xs := by
+  have hW : maxLen xs ≤ 32 := maxLen_le xs 32 hx
+  have h := go_roundtrip_int32 constGroup (maxLen xs) xs hW (lt_pow_maxLen xs) hl
+  simp only [encodeDict, encodeInt32]
+  cases he : encodeInt32With constGroup (maxLen xs) xs with
+  | error e => rw [he] at h; simp [bind, Except.bind] at h
+  | ok bs =>
+    rw [he] at h
+    simpa [bind, Except.bind, Except.map, goDecodeDict] using h
+
+example : (∀ x ∈ [3, 3, 70000], x < 2 ^ 32) ∧ [3, 3, 70000].length ≤ 2 ^ 31 - 1 := by decide
+
+/-- the boolean encoder only emits streams in the boolean decoder's domain -/
+theorem encodeBits_validGo (src : List Nat) (hne : src ≠ []) (hl : 8 * src.length ≤ 2 ^ 31 - 1) :
+    ValidRleGo ((bytesToBits src).map b2n) (encodeBits src) := by
+  cases src with
+  | nil => exact absurd rfl hne
+  | cons a rest =>
+    simp only [encodeBits]
+    split
+    · rename_i hc
+      have hrep : ∃ v, (v = 0 ∨ v = 0xFF) ∧ a :: rest = List.replicate (a :: rest).length v := by
+        simp only [Bool.or_eq_true] at hc
+        rcases hc with hc | hc
+        · exact ⟨0, Or.inl rfl, all_zero_eq_replicate _ hc⟩
+        · refine ⟨0xFF, Or.inr rfl, ?_⟩
+          rw [List.eq_replicate_iff]
+          refine ⟨rfl, fun b hb => ?_⟩
+          have := (List.all_eq_true.mp hc) b hb
+          simpa using this
+      obtain ⟨v, hv, hrepl⟩ := hrep
+      have hav : a = v := by
+        have : (a :: rest).head? = some v := by rw [hrepl]; simp [List.replicate_succ]
+        simpa using this
+      refine ⟨[.rle (8 * (a :: rest).length) [a]], ?_, ?_, ?_, ?_⟩
+      · intro r hr; simp at hr; subst hr; simp [Run.WF]
+      · intro r hr; simp at hr; subst hr
+        simp only [Run.GoOK, List.length_cons] at hl ⊢; omega
+      · rw [hrepl, bytesToBits_replicate _ _ hv, hav]
+        simp [runsValues, Run.values, leNat]
+      · simp [serialize, Run.bytes]
+    · obtain ⟨h1, h2⟩ := bitsLoop_spec (a :: rest).length (a :: rest) (Nat.le_refl _)
+      exact ⟨_, h1, bitsLoop_goOK _ _ hl, h2, rfl⟩
+
+/-- `DecodeBoolean (EncodeBoolean src) = src` on the models of both sides (repaired decoder): every
+byte string shorter than 2^28 bytes whose encoding is shorter than 4 GiB. -/
+theorem go_roundtrip_boolean (src : List Nat) (hb : ∀ b ∈ src, b < 256)
+    (hl : 8 * src.length ≤ 2 ^ 31 - 1) (hlen : (encodeBits src).length < 2 ^ 32) :
+    goDecodeBoolean (encodeBoolean src) = .ok src := by
+  have hpos : 1 ≤ (encodeBits src).length := by
+    cases src with
+    | nil => simp [encodeBits, uvarint_small]
+    | cons a rest =>
+      simp only [encodeBits]
+      split
+      · simp
+      · have := serialize_length_ge (bitsLoop (a :: rest).length (a :: rest))
+        have h1 : 1 ≤ (bitsLoop (a :: rest).length (a :: rest)).length := by
+          simp only [List.length_cons, bitsLoop]; split <;> simp
+        omega
+  have h4 : (leBytes 4 (encodeBits src).length).length = 4 := leBytes_length _ _
+  have hle : leNat (leBytes 4 (encodeBits src).length) = (encodeBits src).length := by
+    rw [leNat_leBytes]; exact Nat.mod_eq_of_lt hlen
+  have a1 : ¬ (leBytes 4 (encodeBits src).length ++ encodeBits src).length = 4 := by
+    rw [List.length_append]; omega
+  have a2 : ¬ (leBytes 4 (encodeBits src).length ++ encodeBits src).length < 4 := by
+    rw [List.length_append]; omega
+  simp only [goDecodeBoolean, encodeBoolean, a1, a2, if_false, List.take_left' h4, List.drop_left' h4, hle,
+    Nat.lt_irrefl, List.take_length]
+  cases src with
+  | nil => simp [encodeBits, uvarint_small, goDecodeBits, goDecodeBitsLoop, goUvarint, bitsToBytes, Except.map]
+  | cons a rest =>
+    obtain ⟨bits, hbits, hdec⟩ := decodeBoolean_bytes_of_valid (encodeBits_validGo (a :: rest) (by simp) hl)
+    have := map_b2n_inj _ _ hbits
+    subst this
+    rw [hdec, bitsToBytes_bytesToBits (a :: rest) hb _ (by rw [bytesToBits_length]; omega)]
+
+example : (∀ b ∈ [0xFF, 0xFF, 0x12], b < 256) ∧ 8 * [0xFF, 0xFF, 0x12].length ≤ 2 ^ 31 - 1 := by decide
+
+/-! ## The portable bit-packing kernels are LSB-first packing / unpacking (`Bits.lean`) -/
+
+/-- `encodeBytesBitpackDefault` (levels encoder kernel): the transliterated word loop equals the
+`packBytes` the encoder mirror uses, for every width and every list of 8-value words. -/
+theorem levels_pack_kernel (w : Nat) (gs : List (List Nat)) (h : ∀ g ∈ gs, g.length = 8) :
+    goEncodeBytesBitpack w gs = packBytes w gs.flatten :=
+  goEncodeBytesBitpack_eq w gs h
+
+/-- `decodeBytesBitpackDefault` (levels decoder kernel) equals `Bits.unpackBits` on the packed bytes. -/
+theorem levels_unpack_kernel (w g : Nat) (p : List Nat) (hl : p.length = g * w) (hb : ∀ b ∈ p, b < 256) :
+    goDecodeBytesBitpack w g p = unpackBits w (8 * g) (bytesToBits p) :=
+  goDecodeBytesBitpack_eq w g p hl hb
+
+/-- `bitpack.Unpack` for int32 (portable `unpackInt32`, 32-bit words with straddling values) equals
+`Bits.unpackBits` for every width ≤ 32. -/
+theorem int32_unpack_kernel (w n : Nat) (p : List Nat) (hw : w ≤ 32) (hb : ∀ b ∈ p, b < 256)
+    (hn : n * w ≤ 8 * p.length) : goUnpackInt32 w n p = unpackBits w n (bytesToBits p) :=
+  goUnpackInt32_eq w n p hw hb hn
+
+example : (17 : Nat) ≤ 32 ∧ (∀ b ∈ [1, 2, 3, 255, 0, 9, 9, 9, 9], b < 256) ∧ 4 * 17 ≤ 8 * [1, 2, 3, 255, 0, 9, 9, 9, 9].length := by decide
+
+/-- `bitpack.Pack` for int32 (portable `packInt32Default`: 64-bit accumulator flushed 32 bits at a
+time, then the tail bytes), as called by `encodeInt32BitpackDefault`, equals the `packBytes` the
+encoder mirror uses, for every width ≤ 32 and every value list. -/
+theorem int32_pack_kernel (w : Nat) (hw : w ≤ 32) (src : List Nat) : goPackInt32 w src = packBytes w src :=
+  goPackInt32_eq w hw src
+
+example : (32 : Nat) ≤ 32 := by decide
 
 /-! ## Legacy BIT_PACKED levels (encoding/bitpacked) -/
 
